@@ -366,8 +366,8 @@ func fixedInt() []jcase {
 		mk(kind, []uint64{5, 6, 7, 8, 9, 11})               // last delta differs (no RLE)
 	}
 	// long runs: 250 timestamps 1s apart with one late disruptor (runs of 1s after division)
-	for _, n := range []int{122, 242, 250, 490} {
-		for _, at := range []int{n - 1, n / 2, 1} {
+	for _, n := range []int{122, 242, 250} {
+		for _, at := range []int{n - 1, 1} {
 			v := make([]uint64, n)
 			u := make([]uint64, n)
 			for i := range v {
